@@ -62,7 +62,8 @@ CONSTANTS Proto,        \* "beaconDkg" | "relayEntry" | "tecdsaDkg" | "inactivit
           Challenge,    \* approval: challenge period (blocks)
           Precedence,   \* approval: submitter precedence period (blocks)
           MaxBlock,     \* horizon
-          Faults        \* faults the environment may inject (subset of AllFaults)
+          Faults,       \* faults the environment may inject (subset of AllFaults)
+          Gates         \* values of "the signature set reaches the threshold" to explore
 
 AllFaults == {"none", "precheck", "invalid", "waiter", "submit", "status"}
 
@@ -110,7 +111,8 @@ Begin(i, enough, f) ==
     /\ f \in Faults \ {"submit", "status"}
     /\ (f = "precheck") => HasPrecheck
     /\ (f = "invalid") => Proto = "tecdsaDkg"
-    /\ (~enough) => HasGate
+    /\ enough \in Gates
+    /\ (~enough) => (HasGate /\ f = "none")
     /\ LET r == IF RefIsCurrent THEN blk ELSE Start IN
        IF ~enough
           THEN \* threshold gate: nothing is asked from the chain
